@@ -9,7 +9,14 @@
      step_fork:   fork()                                  -> PForked      "exec.after_fork"
                   siginstall(SIGPIPE, SIG_IGN, 0)         -> PIgnPipe     "exec.after_sigpipe"
                   siginstall(SIGTERM, sighandler, NO_RESTART) -> PTermInst "exec.after_sigterm"
-                  waiteof(proc_pipe[0], 1000)             -> PGroupUp     (child did setsid: group exists)
+                  waiteof(proc_pipe[0], 1000):            -> PHandshake hpolls
+                    read() == 0 (EOF: the child closed its end after setsid) -> PGroupUp
+                    EAGAIN, usleep, hpolls times             PHandshake n -> PHandshake (n - 1)
+                    gave up: warnx("process group failure") -> PGroupFail
+                      waitpid(pid, &status, 0)            -> PFailWaiting (blocked in the kernel)
+                        returns -1: return 1              -> PFailIntr -> PExit 1
+                        returns pid                       -> PFailDone
+                      error = exitstatus(status, 0); return error ? error : 1 -> PExit
                   timeout > 0: siginstall(SIGALRM, sighandler, 0) -> PAlrmInst "exec.after_sigalrm"
                                alarm(timeout)             -> PBeforeWait  "exec.before_waitpid"
      step_exec:   waitpid(-pid, &status, 0)               -> PWaiting     (blocked in the kernel)
@@ -30,7 +37,12 @@
    waitpid can only reap the main process.  A signal sent to the runner runs
    sighandler (gotsig = signo) when a handler is installed, interrupts a blocking
    waitpid (no SA_RESTART), and otherwise terminates the runner (default action
-   of SIGTERM).  The alarm can only fire once it has been armed. *)
+   of SIGTERM).  The alarm can only fire once it has been armed.
+   The forked child reaches close(proc_pipe[1]) (after setsid) at a moment the
+   runner does not control: label LUp.  Until then the step's processes cannot
+   exit on their own (they do not exist yet).  The configured timeout expires
+   (label LExpire): SIGALRM arrives if alarm() was called; after a failed
+   handshake alarm() is never called and the expiry goes unnoticed by the runner. *)
 From Coq Require Export List ZArith Bool Lia.
 From RobsdGen Require Gen_Kill.
 Export ListNotations.
@@ -116,6 +128,10 @@ Definition exitstatus (st sig : Z) : Z :=
 Definition npolls : nat :=
   Z.to_nat ((Gen_Kill.kill_timeout_ms + Gen_Kill.kill_poll_ms - 1) / Gen_Kill.kill_poll_ms).
 
+(* number of read() attempts of waiteof: timoms counts down by slpms after every EAGAIN *)
+Definition hpolls : nat :=
+  Z.to_nat ((Gen_Kill.pipe_timeout_ms + Gen_Kill.pipe_poll_ms - 1) / Gen_Kill.pipe_poll_ms).
+
 (* ---- runner state ------------------------------------------------------------------ *)
 
 Inductive phase := PhTerm | PhKill.
@@ -128,7 +144,12 @@ Inductive pc :=
 | PKillSend (ph : phase) | PPoll (ph : phase) (n : nat)
 | PWaitDone
 | PExit (code : Z)
-| PKilled (sig : Z).
+| PKilled (sig : Z)
+| PHandshake (n : nat)      (* in waiteof, n read() attempts left *)
+| PGroupFail                (* waiteof gave up: "process group failure" *)
+| PFailWaiting              (* blocked in waitpid(pid, &status, 0) *)
+| PFailIntr                 (* that waitpid returned -1 *)
+| PFailDone.                (* it returned pid *)
 
 Record state := mkstate {
   s_pc : pc;
@@ -140,16 +161,19 @@ Record state := mkstate {
   s_rest : list proc;
   s_reaped : bool;          (* the main process has been waited for *)
   s_kills : list Z;         (* signals sent to the group so far *)
-  s_event : option Z;       (* ghost: last signal that reached the runner before the main process was reaped *)
-  s_late : option Z         (* ghost: last signal that reached the runner after that *)
+  s_event : option Z;       (* ghost: last event (signal reaching the runner, unnoticed expiry of the
+                               timeout) before the main process was reaped *)
+  s_late : option Z;        (* ghost: last signal that reached the runner after that *)
+  s_up : bool;              (* the child has done setsid and closed its end of the handshake pipe *)
+  s_slow : bool             (* ghost: waiteof gave up before that *)
 }.
 
 Definition set_pc (p : pc) (s : state) : state :=
   mkstate p (s_gotsig s) (s_status s) (s_timeout s) (s_armed s) (s_main s) (s_rest s)
-          (s_reaped s) (s_kills s) (s_event s) (s_late s).
+          (s_reaped s) (s_kills s) (s_event s) (s_late s) (s_up s) (s_slow s).
 
 Definition init (m : member) (rest : list member) (timeout : Z) : state :=
-  mkstate PForked 0 0 timeout false (fresh m) (map fresh rest) false [] None None.
+  mkstate PForked 0 0 timeout false (fresh m) (map fresh rest) false [] None None false false.
 
 Definition init_tree (t : tree) (timeout : Z) : state :=
   init (tree_main t) (tree_rest t) timeout.
@@ -158,12 +182,13 @@ Definition init_tree (t : tree) (timeout : Z) : state :=
 Definition kill_group (sig : Z) (s : state) : state :=
   mkstate (s_pc s) (s_gotsig s) (s_status s) (s_timeout s) (s_armed s)
           (deliver sig (s_main s)) (map (deliver sig) (s_rest s))
-          (s_reaped s) (s_kills s ++ [sig]) (s_event s) (s_late s).
+          (s_reaped s) (s_kills s ++ [sig]) (s_event s) (s_late s) (s_up s) (s_slow s).
 
 (* waitpid found the main process dead: collect its status *)
-Definition reap (w : Z) (s : state) : state :=
-  mkstate PWaitDone (s_gotsig s) w (s_timeout s) (s_armed s) (s_main s) (s_rest s)
-          true (s_kills s) (s_event s) (s_late s).
+Definition reap_to (p : pc) (w : Z) (s : state) : state :=
+  mkstate p (s_gotsig s) w (s_timeout s) (s_armed s) (s_main s) (s_rest s)
+          true (s_kills s) (s_event s) (s_late s) (s_up s) (s_slow s).
+Definition reap (w : Z) (s : state) : state := reap_to PWaitDone w s.
 
 Definition main_zombie (s : state) : option Z :=
   if s_reaped s then None else p_st (s_main s).
@@ -173,11 +198,24 @@ Definition rstep (s : state) : option state :=
   match s_pc s with
   | PForked => Some (set_pc PIgnPipe s)
   | PIgnPipe => Some (set_pc PTermInst s)
-  | PTermInst => Some (set_pc PGroupUp s)
+  | PTermInst => Some (set_pc (PHandshake hpolls) s)                (* close(proc_pipe[1]); waiteof *)
+  | PHandshake (S n) => Some (set_pc (if s_up s then PGroupUp else PHandshake n) s)
+  | PHandshake O =>                                                 (* timoms <= 0: return 1 *)
+      Some (mkstate PGroupFail (s_gotsig s) (s_status s) (s_timeout s) (s_armed s) (s_main s) (s_rest s)
+                    (s_reaped s) (s_kills s) (s_event s) (s_late s) (s_up s) true)
+  | PGroupFail => Some (set_pc PFailWaiting s)
+  | PFailWaiting =>
+      match main_zombie s with
+      | Some w => Some (reap_to PFailDone w s)
+      | None => None
+      end
+  | PFailIntr => Some (set_pc (PExit 1) s)                          (* return 1 *)
+  | PFailDone =>                                                    (* return error ? error : 1 *)
+      Some (set_pc (PExit (if exitstatus (s_status s) 0 =? 0 then 1 else exitstatus (s_status s) 0)) s)
   | PGroupUp => Some (set_pc (if 0 <? s_timeout s then PAlrmInst else PBeforeWait) s)
   | PAlrmInst =>
       Some (mkstate PBeforeWait (s_gotsig s) (s_status s) (s_timeout s) true (s_main s) (s_rest s)
-                    (s_reaped s) (s_kills s) (s_event s) (s_late s))
+                    (s_reaped s) (s_kills s) (s_event s) (s_late s) (s_up s) (s_slow s))
   | PBeforeWait => Some (set_pc PWaiting s)
   | PWaiting =>
       match main_zombie s with
@@ -196,7 +234,7 @@ Definition rstep (s : state) : option state :=
   | PPoll PhTerm O => Some (set_pc (PKillSend PhKill) s)
   | PPoll PhKill O =>                                             (* *status = 1; "failed to kill" *)
       Some (mkstate PWaitDone (s_gotsig s) 1 (s_timeout s) (s_armed s) (s_main s) (s_rest s)
-                    (s_reaped s) (s_kills s) (s_event s) (s_late s))
+                    (s_reaped s) (s_kills s) (s_event s) (s_late s) (s_up s) (s_slow s))
   | PWaitDone => Some (set_pc (PExit (exitstatus (s_status s) (s_gotsig s))) s)
   | PExit _ => None
   | PKilled _ => None
@@ -211,26 +249,35 @@ Definition terminated (p : pc) : bool :=
 
 (* sighandler: gotsig = signo; a blocking waitpid returns -1 / EINTR *)
 Definition record_sig (sig : Z) (s : state) : state :=
-  mkstate (match s_pc s with PWaiting => PWaitIntr | p => p end)
+  mkstate (match s_pc s with PWaiting => PWaitIntr | PFailWaiting => PFailIntr | p => p end)
           sig (s_status s) (s_timeout s) (s_armed s) (s_main s) (s_rest s) (s_reaped s) (s_kills s)
           (if s_reaped s then s_event s else Some sig)
-          (if s_reaped s then Some sig else s_late s).
+          (if s_reaped s then Some sig else s_late s) (s_up s) (s_slow s).
 
 (* default action of SIGTERM *)
 Definition runner_killed (sig : Z) (s : state) : state :=
   mkstate (PKilled sig) (s_gotsig s) (s_status s) (s_timeout s) (s_armed s) (s_main s) (s_rest s)
           (s_reaped s) (s_kills s)
           (if s_reaped s then s_event s else Some sig)
-          (if s_reaped s then Some sig else s_late s).
+          (if s_reaped s then Some sig else s_late s) (s_up s) (s_slow s).
 
-(* a signal reaches the runner; None: not possible here (runner gone, alarm not armed,
+(* the configured timeout expires while the step is running, but alarm() was never called
+   (failed handshake): nothing reaches the runner; only the ghost history records the event *)
+Definition note_expiry (s : state) : state :=
+  mkstate (s_pc s) (s_gotsig s) (s_status s) (s_timeout s) (s_armed s) (s_main s) (s_rest s)
+          (s_reaped s) (s_kills s) (Some SIGALRM) (s_late s) (s_up s) (s_slow s).
+
+(* an event: SIGTERM reaches the runner / the configured timeout expires (SIGALRM reaches the
+   runner if the alarm was armed).  None: not possible here (runner gone, no timeout pending,
    a signal the model does not consider) *)
 Definition arrive (sig : Z) (s : state) : option state :=
   if terminated (s_pc s) then None
   else if sig =? SIGTERM then
     Some (if term_handled (s_pc s) then record_sig sig s else runner_killed sig s)
   else if sig =? SIGALRM then
-    if s_armed s then Some (record_sig sig s) else None
+    if s_armed s then Some (record_sig sig s)
+    else if s_slow s && negb (s_reaped s) && (0 <? s_timeout s) then Some (note_expiry s)
+    else None
   else None.
 
 Fixpoint update_nth {A} (i : nat) (x : A) (l : list A) : list A :=
@@ -242,13 +289,14 @@ Fixpoint update_nth {A} (i : nat) (x : A) (l : list A) : list A :=
 
 Definition set_main (p : proc) (s : state) : state :=
   mkstate (s_pc s) (s_gotsig s) (s_status s) (s_timeout s) (s_armed s) p (s_rest s)
-          (s_reaped s) (s_kills s) (s_event s) (s_late s).
+          (s_reaped s) (s_kills s) (s_event s) (s_late s) (s_up s) (s_slow s).
 Definition set_rest (r : list proc) (s : state) : state :=
   mkstate (s_pc s) (s_gotsig s) (s_status s) (s_timeout s) (s_armed s) (s_main s) r
-          (s_reaped s) (s_kills s) (s_event s) (s_late s).
+          (s_reaped s) (s_kills s) (s_event s) (s_late s) (s_up s) (s_slow s).
 
-(* member i (0 = main) exits on its own *)
+(* member i (0 = main) exits on its own - once the step's processes exist *)
 Definition exit_member (i : nat) (s : state) : option state :=
+  if negb (s_up s) then None else
   match i with
   | O => match self_exit (s_main s) with Some p => Some (set_main p s) | None => None end
   | S j =>
@@ -261,18 +309,26 @@ Definition exit_member (i : nat) (s : state) : option state :=
       end
   end.
 
+(* the forked child has done setsid, closes its end of the handshake pipe and execs the step *)
+Definition group_up (s : state) : option state :=
+  if s_up s then None
+  else Some (mkstate (s_pc s) (s_gotsig s) (s_status s) (s_timeout s) (s_armed s) (s_main s) (s_rest s)
+                     (s_reaped s) (s_kills s) (s_event s) (s_late s) true (s_slow s)).
+
 (* ---- the transition system ---------------------------------------------------------- *)
 
 Inductive label :=
 | LRun                   (* the runner makes one transition *)
-| LArrive (sig : Z)      (* SIGTERM from outside / SIGALRM from the alarm reaches the runner *)
-| LExit (i : nat).       (* member i of the group exits on its own *)
+| LArrive (sig : Z)      (* SIGTERM from outside reaches the runner / the timeout expires (SIGALRM) *)
+| LExit (i : nat)        (* member i of the group exits on its own *)
+| LUp.                   (* the child closes its end of the handshake pipe: the group exists *)
 
 Definition apply_label (l : label) (s : state) : option state :=
   match l with
   | LRun => rstep s
   | LArrive sig => arrive sig s
   | LExit i => exit_member i s
+  | LUp => group_up s
   end.
 
 (* an execution: a schedule is any list of labels; only enabled labels can be taken *)
@@ -298,9 +354,11 @@ Record obs := mkobs {
 
 (* what happened to the step from outside, independent of the runner's code *)
 Record history := mkhist {
-  h_event : option Z;        (* last signal that reached the runner while the step was running *)
-  h_late : option Z;         (* last signal that reached it after the main process had been reaped *)
-  h_self : list bool         (* members that exited on their own, main first *)
+  h_event : option Z;        (* last event while the step was running: SIGTERM reached the runner (15),
+                                the configured timeout expired (14) *)
+  h_late : option Z;         (* last signal that reached the runner after the main process had been reaped *)
+  h_self : list bool;        (* members that exited on their own, main first *)
+  h_slow : bool              (* the step's process group was not there within the handshake timeout *)
 }.
 
 Definition observe (s : state) : obs :=
@@ -310,7 +368,7 @@ Definition observe (s : state) : obs :=
         (s_kills s).
 
 Definition history_of (s : state) : history :=
-  mkhist (s_event s) (s_late s) (map p_self (s_main s :: s_rest s)).
+  mkhist (s_event s) (s_late s) (map p_self (s_main s :: s_rest s)) (s_slow s).
 
 Definition members_of (s : state) : list member := map member_of (s_main s :: s_rest s).
 
@@ -344,7 +402,10 @@ Inductive action :=
 | ABlock              (* continue the runner until it blocks in waitpid (or exits) *)
 | ASignal (sig : Z)   (* deliver sig to the runner *)
 | AExit (i : nat)     (* member i exits on its own *)
-| AFinish.            (* continue the runner until it exits (or blocks for good) *)
+| AFinish             (* continue the runner until it exits (or blocks for good) *)
+| AHold               (* first action only: the forked child is held before setsid *)
+| AUp                 (* release it: the group comes up *)
+| AExpire.            (* let the configured timeout pass *)
 
 (* where the runner is from the scheduler's point of view *)
 Inductive rmode := Free | Stopped | Blocked | Gone.
@@ -361,11 +422,15 @@ Fixpoint run_until (stop : state -> bool) (fuel : nat) (s : state) : state * out
       end
   end.
 
-(* enough for any run: 7 transitions to the wait, then at most 2 * (npolls + 2) + 3 *)
-Definition run_fuel : nat := 2 * npolls + 40.
+(* enough for any run: hpolls + 9 transitions to a wait, then at most 2 * (npolls + 2) + 3 *)
+Definition run_fuel : nat := 2 * npolls + hpolls + 40.
 
 Definition mode_of (o : outcome) : rmode :=
   match o with OReached => Stopped | OBlocked => Blocked | OExited => Gone | OFuel => Free end.
+
+(* the runner sits in a blocking waitpid *)
+Definition blocking (p : pc) : bool :=
+  match p with PWaiting | PFailWaiting => true | _ => false end.
 
 Record istate := mkistate {
   i_state : state;
@@ -401,7 +466,9 @@ Definition interp1 (a : action) (st : istate) : istate :=
       | m =>
           match arrive sig s with
           | None => mkistate s m (i_reached st) true
-          | Some s' => mkistate s' (match m with Blocked => Free | _ => m end) (i_reached st) (i_racy st)
+          | Some s' =>
+              mkistate s' (match m with Blocked => if blocking (s_pc s') then Blocked else Free | _ => m end)
+                       (i_reached st) (i_racy st)
           end
       end
   | AExit i =>
@@ -414,10 +481,39 @@ Definition interp1 (a : action) (st : istate) : istate :=
           | m => mkistate s' m (i_reached st) (i_racy st)
           end
       end
+  | AHold => mkistate s (i_mode st) (i_reached st) true      (* only meaningful as the first action *)
+  | AUp =>
+      match group_up s with
+      | None => st
+      | Some s' =>
+          match i_mode st with
+          | Free => mkistate s' Free (i_reached st) true     (* the runner may be anywhere in waiteof *)
+          | m => mkistate s' m (i_reached st) (i_racy st)
+          end
+      end
+  | AExpire =>
+      match i_mode st with
+      | Free => mkistate s Free (i_reached st) true
+      | Gone => st
+      | m =>
+          match arrive SIGALRM s with
+          | None => st                                        (* no timeout pending: nothing happens *)
+          | Some s' =>
+              mkistate s' (match m with Blocked => if blocking (s_pc s') then Blocked else Free | _ => m end)
+                       (i_reached st) (i_racy st)
+          end
+      end
   end.
 
+(* without AHold as the first action the child is not held: it has closed its end of the pipe
+   long before the runner can give up on it (1000 ms), whatever the runner does meanwhile *)
 Definition interp (script : list action) (s : state) : istate :=
-  fold_left (fun st a => interp1 a st) script (mkistate s Free [] false).
+  match script with
+  | AHold :: script' => fold_left (fun st a => interp1 a st) script' (mkistate s Free [] false)
+  | _ =>
+      fold_left (fun st a => interp1 a st) script
+                (mkistate (match group_up s with Some s' => s' | None => s end) Free [] false)
+  end.
 
 (* ---- what the model transcribes, statement by statement (compared with
         RobsdGen.Gen_Kill, which is regenerated from step-exec.c on every run) ---------------- *)
@@ -437,7 +533,12 @@ Definition model_calls_killwaitpg : list string :=
 
 Definition model_calls_killwaitpg1 : list string :=
   [ "slpms 100"; "kill -pgid signo == -1"; "err 1 kill"; "waitpid -pgid status WNOHANG"; "w== -1";
-    "return 1"; "w== 0"; "usleep"; "countdown"; "if-timoms <="; "return 1"; "continue"; "return 0" ].
+    "warn waitpid"; "return 1"; "w== 0"; "usleep"; "countdown"; "if-timoms <="; "return 1"; "continue";
+    "return 0" ].
+
+Definition model_calls_waiteof : list string :=
+  [ "slpms 1"; "read"; "n== -1"; "errno== EAGAIN"; "usleep"; "countdown"; "if-timoms <="; "return 1";
+    "warn read"; "return 1"; "n== 0"; "break"; "return 0" ].
 
 Definition model_calls_siginstall : list string :=
   [ "sigaction NULL &sa"; "err 1 sigaction"; "sa_handler handler"; "norestart"; "sigaction &sa NULL";
@@ -451,7 +552,7 @@ Definition model_calls_step_fork : list string :=
     "close-pipe 1"; "execvp";
     "siginstall SIGPIPE SIG_IGN 0"; "siginstall SIGTERM sighandler SIG_NO_RESTART";
     "close-pipe 1"; "waiteof 1000"; "waitpid pid &status 0 == -1"; "return 1"; "exitstatus 0";
-    "return _"; "close-pipe 0"; "step_timeout"; "if-timeout >";
+    "return error ? error : 1"; "close-pipe 0"; "step_timeout"; "if-timeout >";
     "siginstall SIGALRM sighandler 0"; "alarm"; "return 0" ].
 
 Definition model_calls_step_timeout : list string :=
